@@ -68,12 +68,15 @@ def destroy_inst(tier, clause_recreate=True):
           ('backend_destroyed', '__CPROVER_ensures($this->base0.destroyed == __CPROVER_old($this->base0.destroyed) + 1)')]
     if clause_recreate:
         cl.append(('no_callback_registrations_survive', '__CPROVER_ensures($this->callback_keys.len == 0)'))
-    cl.append(('frame', '__CPROVER_assigns($this->sandbox_created, $this->base0.destroyed, $this->callback_keys.len, V_BASE[0], V_BASE[1], V_SIZE[0], V_SIZE[1], %s.len, __CPROVER_object_whole(%s.elem))' % (L, L)))
+    # cached symbol addresses belong to the incarnation that looked them up (g_name: an arbitrary name id, M-map string keys)
+    cl.append(('no_cached_symbol_address_survives', '__CPROVER_ensures(!$this->func_ptr_map.present[g_name] && !$this->internal_func_ptr_map.present[g_name])'))
+    cl.append(('frame', '__CPROVER_assigns($this->sandbox_created, $this->base0.destroyed, $this->callback_keys.len, $this->func_ptr_map, $this->internal_func_ptr_map, V_BASE[0], V_BASE[1], V_SIZE[0], V_SIZE[1], %s.len, __CPROVER_object_whole(%s.elem))' % (L, L)))
     h = ('  struct %s sb; int in_status = sb.sandbox_created; unsigned long in_keys = sb.callback_keys.len; __CPROVER_assume(sb.base0.destroyed < 1000);\n' % SB + LIST_ENV +
-         '  _Bool in_noabort; g_noabort = in_noabort; unsigned long in_pos; g_pos = in_pos;\n'
+         '  _Bool in_noabort; g_noabort = in_noabort; unsigned long in_pos; g_pos = in_pos; unsigned char in_name; g_name = in_name;\n'
          '  $ROOT(&sb);\n')
     return Inst('c14_destroy_sandbox', 'rlbox_sandbox<vsbx>& s', 's.destroy_sandbox();', cl, h, leaves=['dynamic_check'], prop=PROP, root_name='destroy_sandbox',
-                tier=tier, pre=GH + ' unsigned long g_pos;\n', facts=FACTS, note='std::find / vector::erase through the M-vec contracts; vsbx::impl_destroy_sandbox inline')
+                tier=tier, pre=GH + ' unsigned long g_pos; unsigned char g_name;\n', facts=FACTS, opts={'map_str_keys': True},
+                note='std::find / vector::erase through the M-vec contracts; symbol caches as array views over name ids; vsbx::impl_destroy_sandbox inline')
 
 
 def guard_insts(tier):
